@@ -254,20 +254,27 @@ fn create_locations(json_input: &JsonInput) -> (Locations, HashMap<IdType, Locat
     (Locations::new(stations, dead_head_trips), location_lookup)
 }
 
+/// Reads a date-time string of the input. `DateTime::new` accepts an hour of 24 (and seconds above 59) but stores the
+/// fields as given, so that "2023-07-24T24:00:00" and "2023-07-25T00:00:00" would be two different points in time, the
+/// first one earlier than the second. Adding a zero duration brings the point into its normal form.
+fn parse_date_time(string: &str) -> DateTime {
+    DateTime::new(string) + Duration::ZERO
+}
+
 fn determine_planning_days(json_input: &JsonInput) -> Duration {
     let mut earliest_datetime = DateTime::Latest;
     let mut latest_datetime = DateTime::Earliest;
 
     if let Some(maintenance_slots) = &json_input.maintenance_slots {
         for maintenance_slot in maintenance_slots {
-            earliest_datetime = earliest_datetime.min(DateTime::new(&maintenance_slot.start));
-            latest_datetime = latest_datetime.max(DateTime::new(&maintenance_slot.end));
+            earliest_datetime = earliest_datetime.min(parse_date_time(&maintenance_slot.start));
+            latest_datetime = latest_datetime.max(parse_date_time(&maintenance_slot.end));
         }
     }
 
     for departure in &json_input.departures {
         for departure_segment in &departure.segments {
-            let departure_time = DateTime::new(&departure_segment.departure);
+            let departure_time = parse_date_time(&departure_segment.departure);
             let arrival_time = departure_time
                 + Duration::from_seconds(
                     json_input
@@ -486,7 +493,7 @@ fn create_service_trips(
             let destination = locations
                 .get(location_lookup[&route_segment.destination])
                 .unwrap();
-            let departure_time = DateTime::new(&departure_segment.departure);
+            let departure_time = parse_date_time(&departure_segment.departure);
             let arrival_time = departure_time + Duration::from_seconds(route_segment.duration);
             let distance = Distance::from_meter(route_segment.distance as Meter);
             let mut passengers = departure_segment.passengers as PassengerCount;
@@ -540,8 +547,8 @@ fn create_maintenance_slots(
                 let location = locations
                     .get(location_lookup[&maintenance_slot.location])
                     .unwrap();
-                let start = DateTime::new(&maintenance_slot.start);
-                let end = DateTime::new(&maintenance_slot.end);
+                let start = parse_date_time(&maintenance_slot.start);
+                let end = parse_date_time(&maintenance_slot.end);
                 let id = maintenance_slot.id.clone();
 
                 Node::create_maintenance(
